@@ -99,6 +99,17 @@ def rand_cfg(rng, mtu=None, wifi=None, mac=None):
         cfg.update(mode=rng.choice([0, 1, 2, 3, 255]), bssid=edge_word(rng, 6), ssid=rand_name(rng),
                    rate=int.from_bytes(edge_word(rng, 2), "big"), rssi=rng.randint(-128, 127),
                    phy=rng.randint(0, 10))
+    # attributes that are related to each other: an IPv4-mapped / IPv4-compatible IPv6 address, an access point that is the
+    # station itself, addresses that repeat one another
+    r = rng.random()
+    if r < 0.06:
+        cfg["ipv6"] = b"\0" * 10 + b"\xff\xff" + cfg["ipv4"]
+    elif r < 0.09:
+        cfg["ipv6"] = b"\0" * 12 + cfg["ipv4"]
+    elif r < 0.11:
+        cfg["ipv6"] = (cfg["mac"] * 3)[:16]
+    if wifi and rng.random() < 0.08:
+        cfg["bssid"] = cfg["mac"]
     return cfg
 
 
@@ -185,9 +196,21 @@ class Net:
         self.bridges = ms[nmappers:2 * nmappers]      # Ethernet source when mapper i is behind a bridge
         self.strangers = ms[2 * nmappers:]
         self.last_seq = None                          # last sequence number / transaction id any builder used
+        self.last_gen = {}                            # service -> generation of the last Discover built
 
     def others(self, k):
         return distinct_macs(self.rng, k, avoid=[self.own, W.BCAST] + self.mappers)
+
+
+def shadow_iface(rng, cfg, n):
+    """a second interface of the same host and its own traffic: same hardware address (VLAN / bond / macvlan), a
+    consecutive one, or an unrelated one; other mappers, both services, Resets included"""
+    r = rng.random()
+    mac = cfg["mac"] if r < 0.4 else related_mac(rng, cfg["mac"]) if r < 0.7 else rand_mac(rng)
+    cfg1 = rand_cfg(rng, mtu=rng.choice([cfg["mtu"], 1500]), mac=mac)
+    net1 = Net(rng, mac)
+    h = session_history(rng, net1, cfg1["mtu"], n, p_mut=0.0, p_noise=0.0, p_misc=0.05, max_emit=1)
+    return cfg1, [fr for fr in h if not (len(fr) >= 18 and fr[17] == W.OP_EMIT)]      # no Emits: their sleeps would move the shared clock
 
 
 # ---------------------------------------------------------------- frame families
@@ -198,7 +221,18 @@ def f_discover(rng, net, m=None, tos=None, ack=None, bridged=None, gen=None, xid
     bridged = (rng.random() < 0.3) if bridged is None else bridged
     eth = net.bridges[i] if bridged else real
     tos = rng.choice([0, 0, 0, 1]) if tos is None else tos
-    gen = rng.choice(GENS + [rng.getrandbits(16)]) if gen is None else gen
+    if gen is None:
+        prev = net.last_gen.get(tos)
+        other = net.last_gen.get(1 - tos) if tos in (0, 1) else None
+        r = rng.random()
+        if prev is not None and r < 0.12:
+            # a number related to the one this service used last: its byte-swapped image, a neighbour, one bit away
+            gen = rng.choice([((prev & 0xFF) << 8) | (prev >> 8), (prev + 1) & 0xFFFF, (prev - 1) & 0xFFFF, prev ^ 0x8000, prev ^ 0x0001])
+        elif other is not None and r < 0.18:
+            gen = rng.choice([other, ((other & 0xFF) << 8) | (other >> 8)])
+        else:
+            gen = rng.choice(GENS + [rng.getrandbits(16)])
+    net.last_gen[tos] = gen
     if xid is None:
         # a transaction id is just a number: it may repeat (a Discover is retransmitted with a growing station list) or
         # collide with the sequence number of the last command
@@ -230,6 +264,20 @@ def f_emit(rng, net, m, seq=None, n=None, tos=0, bridged=False, kinds=(0, 1)):
     n = rng.choice([1, 1, 2, 3, 5]) if n is None else n
     descs = []
     for _ in range(n):
+        if descs and rng.random() < 0.2:
+            # a sibling of the previous descriptor: identical but for one field, the addresses one byte apart
+            k, p_, s_, d_ = descs[-1]
+            which = rng.randrange(5)
+            if which == 0:
+                d_ = d_[:4] + bytes([d_[4] ^ rng.choice([1, 0x80, 0xFF]), d_[5] ^ rng.choice([0, 1, 0xFF])])
+            elif which == 1:
+                s_ = s_[:5] + bytes([s_[5] ^ rng.choice([1, 0x80])])
+            elif which == 2:
+                k = 1 - k if k in (0, 1) else k
+            elif which == 3:
+                d_ = bytes([d_[0] ^ 0x02]) + d_[1:]
+            descs.append((k, p_, s_, d_))
+            continue
         descs.append((rng.choice(kinds), rng.choice([0, 0, 1, 2, 255, rng.randint(0, 255)]),
                       rng.choice(net.strangers + [net.own, rand_mac(rng)]) if rng.random() < 0.85 else rng.choice([edge_mac(rng), real, net.own]),
                       rng.choice(net.strangers + [rand_mac(rng)]) if rng.random() < 0.85 else rng.choice([edge_mac(rng), real, net.own])))
